@@ -12,8 +12,8 @@
       output = firstn size (smerge seqs)  (values equal the sequential stable merge)
       cursors within the sequences, sum = size, output = smerge of exactly the prefixes passed (cursors exact)
       number of threads = min p total. *)
-From Coq Require Import List Bool Arith ZArith Sorting.Sorted.
-From TLXV Require Import Common.Order C07.SMerge C07.PMWM C07.PMWMProofs C07.PMWMExact C07.PMWMSampling
+From Coq Require Import List Bool Arith ZArith Sorting.Sorted Sorting.Permutation.
+From TLXV Require Import Common.Order C07.SMerge C07.PMWM C07.PMWMProofs C07.PMWMExact C07.PMWMSampling C07.SortedPerm
   C07.PMWMTop C07.PMWMExamples C07.Instances.
 Import ListNotations.
 
@@ -52,7 +52,7 @@ Print Assumptions C07_chunks_partition_sampling.
     all tuples of sorted sequences (empty ones allowed), all size <= total, all p >= 1. *)
 Theorem C07_parallel_exact_stable : forall (A : Type) (ltb : A -> A -> bool), SWO ltb ->
   forall (partition : list (list A) -> Z -> list nat)
-    (seqmerge : bool -> bool -> list (list A) -> nat -> list A * list nat)
+    (seqmerge : bool -> option (list A) -> list (list A) -> nat -> list A * list nat)
     (seqs : list (list A)) (size p os : nat),
   Forall (fun l => Sorted (sorted_rel ltb) l) seqs -> size <= total seqs -> 1 <= p ->
   seqmerge_stable_spec ltb seqmerge ->
@@ -66,7 +66,7 @@ Print Assumptions C07_parallel_exact_stable.
     the shipped selection is refuted in C07_sampling_size_lt_total_refuted). *)
 Theorem C07_parallel_sampling_stable : forall (A : Type) (ltb : A -> A -> bool), SWO ltb ->
   forall (partition : list (list A) -> Z -> list nat)
-    (seqmerge : bool -> bool -> list (list A) -> nat -> list A * list nat)
+    (seqmerge : bool -> option (list A) -> list (list A) -> nat -> list A * list nat)
     (seqs : list (list A)) (size p os : nat),
   Forall (fun l => Sorted (sorted_rel ltb) l) seqs -> size <= total seqs -> 1 <= p -> 1 <= os ->
   seqmerge_stable_spec ltb seqmerge ->
@@ -78,7 +78,7 @@ Print Assumptions C07_parallel_sampling_stable.
 (** the dispatch: under MWMSA_SAMPLING a proper prefix runs exactly the MWMSA_EXACT code (both variants) *)
 Theorem C07_sampling_prefix_is_exact : forall (A : Type) (ltb : A -> A -> bool)
     (partition : list (list A) -> Z -> list nat)
-    (seqmerge : bool -> bool -> list (list A) -> nat -> list A * list nat)
+    (seqmerge : bool -> option (list A) -> list (list A) -> nat -> list A * list nat)
     stable (seqs : list (list A)) (size p os : nat),
   size <> total seqs ->
   pmwm_base ltb partition seqmerge stable true seqs size p os =
@@ -95,41 +95,32 @@ Theorem C07_bounds_ok : forall (A : Type) (ltb : A -> A -> bool), SWO ltb ->
 Proof. exact @bounds_ok_all. Qed.
 Print Assumptions C07_bounds_ok.
 
-(** Unstable variants — PARTIAL.  Full statement wanted (property text: "write the same sequence of element
-    values as the sequential merge"):
-      output ts is pointwise equivalent (eqv ltb) to firstn size (smerge ltb seqs).
-    Proved below: the windows tile [0,size) (hence one writer per position), the output is a permutation of
-    firstn size (smerge seqs) and of exactly the prefixes the cursors passed, cursors within the sequences
-    with sum = size, thread count = min p total -- for both splittings ([bounds_ok] is what
-    C07_bounds_ok establishes for every size <= total).  Sorted (output ts) is C07_parallel_unstable_sorted
-    below; missing: the step from (sorted, permutation of the merge prefix) to pointwise equivalence. *)
-Theorem C07_parallel_unstable_partial : forall (A : Type) (ltb : A -> A -> bool)
-    (partition : list (list A) -> Z -> list nat)
-    (seqmerge : bool -> bool -> list (list A) -> nat -> list A * list nat)
-    sampling (seqs : list (list A)) (size p os : nat),
-  Forall (fun l => Sorted (sorted_rel ltb) l) seqs -> size <= total seqs -> 1 <= p ->
-  seqmerge_unstable_full_spec ltb seqmerge ->
-  bounds_ok ltb partition sampling seqs size p os ->
-  parallel_result_unstable ltb seqs size p (pmwm_base ltb partition seqmerge false sampling seqs size p os).
-Proof. exact @pmwm_base_unstable_partial. Qed.
-Print Assumptions C07_parallel_unstable_partial.
-
-(** Unstable variants, sortedness: the concatenated output is sorted, given that each sequential unstable merge
-    (C05) delivers a sorted permutation of the sorted sequences it is given in full.  With the permutation
-    conjunct above this fixes the sequence of keys written (the sorted arrangement of the first [size]
-    elements of the stable merge); the final step "pointwise equivalent to firstn size (smerge seqs)" is
-    not formalised, which is why C07_parallel_unstable_partial keeps its name. *)
-Theorem C07_parallel_unstable_sorted : forall (A : Type) (ltb : A -> A -> bool)
-    (partition : list (list A) -> Z -> list nat)
-    (seqmerge : bool -> bool -> list (list A) -> nat -> list A * list nat)
+(** Unstable variants.  The property fixes, for an unstable merge, the sequence of element VALUES up to the
+    comparator's equivalence (which of several equivalent elements is written first is left open).
+    [parallel_result_unstable_full seqs size p r]: r = Some (threads, cursors, size) with
+      contiguous threads 0 size (windows disjoint, cover [0,size); hence one writer per position),
+      Forall2 eqv output (firstn size (smerge seqs))   -- position by position the values of the sequential merge,
+      output sorted, a permutation of firstn size (smerge seqs) and of exactly the prefixes the cursors passed,
+      cursors within the sequences with sum = size, thread count = min p total.
+    For both splitting requests ([bounds_ok], established for every size <= total by C07_bounds_ok); the unstable
+    sequential merge (C05) enters as: a full merge of sorted sequences is a sorted permutation of them. *)
+Theorem C07_parallel_unstable : forall (A : Type) (ltb : A -> A -> bool), SWO ltb ->
+  forall (partition : list (list A) -> Z -> list nat)
+    (seqmerge : bool -> option (list A) -> list (list A) -> nat -> list A * list nat)
     sampling (seqs : list (list A)) (size p os : nat),
   Forall (fun l => Sorted (sorted_rel ltb) l) seqs -> size <= total seqs -> 1 <= p ->
   seqmerge_unstable_sorted_spec ltb seqmerge ->
   bounds_ok ltb partition sampling seqs size p os ->
-  forall r, pmwm_base ltb partition seqmerge false sampling seqs size p os = Some r ->
-            Sorted (sorted_rel ltb) (output (p_threads r)).
-Proof. exact @pmwm_base_unstable_sorted. Qed.
-Print Assumptions C07_parallel_unstable_sorted.
+  parallel_result_unstable_full ltb seqs size p (pmwm_base ltb partition seqmerge false sampling seqs size p os).
+Proof. exact @pmwm_base_unstable. Qed.
+Print Assumptions C07_parallel_unstable.
+
+(** the lemma behind it: a sorted list is determined up to equivalence by its multiset *)
+Theorem C07_sorted_permutations_equivalent : forall (A : Type) (ltb : A -> A -> bool), SWO ltb ->
+  forall l1 l2 : list A, Sorted (sorted_rel ltb) l1 -> Sorted (sorted_rel ltb) l2 -> Permutation l1 l2 ->
+  Forall2 (fun x y => eqv ltb x y = true) l1 l2.
+Proof. exact @sorted_perm_eqv. Qed.
+Print Assumptions C07_sorted_permutations_equivalent.
 
 (** one_writer_per_position: contiguous windows give every position of [from,to) exactly one writer. *)
 Theorem C07_one_writer_per_position : forall (A : Type) (ts : list (@thread_res A)) (from to pos : nat),
@@ -140,7 +131,7 @@ Print Assumptions C07_one_writer_per_position.
 (** the switches: on the parallel side the front ends are the base routine ... *)
 Theorem C07_front_end_parallel : forall (A : Type) (ltb : A -> A -> bool)
     (partition : list (list A) -> Z -> list nat)
-    (seqmerge : bool -> bool -> list (list A) -> nat -> list A * list nat)
+    (seqmerge : bool -> option (list A) -> list (list A) -> nat -> list A * list nat)
     sw stable sentinels sampling (seqs : list (list A)) size p os,
   goes_parallel sw (length seqs) size p = true ->
   pmwm ltb partition seqmerge sw stable sentinels sampling seqs size p os =
@@ -148,14 +139,14 @@ Theorem C07_front_end_parallel : forall (A : Type) (ltb : A -> A -> bool)
 Proof. exact @pmwm_parallel. Qed.
 Print Assumptions C07_front_end_parallel.
 
-(** ... and on the other side the sequential merge, written by one thread. *)
+(** ... and on the other side ONE call of the sequential merge with the entry point's Sentinels flag ([None] /
+    [Some sents], sents = the elements the caller stored behind the sequences), written by one thread. *)
 Theorem C07_front_end_fallback_stable : forall (A : Type) (ltb : A -> A -> bool)
     (partition : list (list A) -> Z -> list nat)
-    (seqmerge : bool -> bool -> list (list A) -> nat -> list A * list nat)
+    (seqmerge : bool -> option (list A) -> list (list A) -> nat -> list A * list nat)
     sw sentinels sampling (seqs : list (list A)) size p os,
-  seqs <> [] -> goes_parallel sw (length seqs) size p = false ->
-  Forall (fun l => Sorted (sorted_rel ltb) l) seqs -> size <= total seqs ->
-  seqmerge_stable_spec_at ltb seqmerge sentinels ->
+  seqs <> [] -> goes_parallel sw (length seqs) size p = false -> size <= total seqs ->
+  fst (seqmerge true sentinels seqs size) = firstn size (smerge ltb seqs) ->
   exists ts cur, pmwm ltb partition seqmerge sw true sentinels sampling seqs size p os =
                  Some {| p_threads := ts; p_cursors := cur; p_ret := size |} /\
                  contiguous ts 0 size /\ output ts = firstn size (smerge ltb seqs) /\ length ts = 1.
@@ -194,22 +185,34 @@ Theorem C07_closed_parallel_sampling_stable : forall (A : Type) (ltb : A -> A ->
 Proof. exact @closed_parallel_sampling_stable. Qed.
 Print Assumptions C07_closed_parallel_sampling_stable.
 
-(** unstable variants, closed: the conjuncts of C07_parallel_unstable_partial and the sortedness of the output *)
+(** unstable variants, closed: the complete statement, and the output is position by position equivalent to
+    what the sequential unstable merge ([seq05 alg false None]) writes for the same inputs and size *)
 Theorem C07_closed_parallel_unstable : forall (A : Type) (ltb : A -> A -> bool), SWO ltb ->
   forall alg sampling (seqs : list (list A)) (size p os : nat),
   Forall (fun l => Sorted (sorted_rel ltb) l) seqs -> size <= total seqs -> 1 <= p -> (sampling = true -> 1 <= os) ->
-  parallel_result_unstable ltb seqs size p (pmwm_base ltb (part08 ltb) (seq05 ltb alg) false sampling seqs size p os) /\
+  parallel_result_unstable_full ltb seqs size p (pmwm_base ltb (part08 ltb) (seq05 ltb alg) false sampling seqs size p os) /\
   forall r, pmwm_base ltb (part08 ltb) (seq05 ltb alg) false sampling seqs size p os = Some r ->
-            Sorted (sorted_rel ltb) (output (p_threads r)).
+    Forall2 (fun x y => eqv ltb x y = true) (output (p_threads r)) (fst (seq05 ltb alg false None seqs size)).
 Proof. exact @closed_parallel_unstable. Qed.
 Print Assumptions C07_closed_parallel_unstable.
 
-(** the stable fall-back (entry points without sentinels), closed *)
+(** every sequential variant writes, position by position, values equivalent to the stable merge prefix *)
+Theorem C07_closed_sequential_values : forall (A : Type) (ltb : A -> A -> bool), SWO ltb ->
+  forall alg stable (cs : list (list A)) (n : nat),
+  Forall (fun l => Sorted (sorted_rel ltb) l) cs -> n <= total cs ->
+  Forall2 (fun x y => eqv ltb x y = true) (fst (seq05 ltb alg stable None cs n)) (firstn n (smerge ltb cs)).
+Proof. exact @seq05_eqv_prefix. Qed.
+Print Assumptions C07_closed_sequential_values.
+
+(** the stable fall-back, closed, for all four entry points: [sentinels = None], or [Some sents] with the
+    documented obligation of the *_sentinels entry points (C05's [sent_ok]: one sentinel per sequence, greater
+    than every real element) *)
 Theorem C07_closed_fallback_stable : forall (A : Type) (ltb : A -> A -> bool), SWO ltb ->
-  forall alg sw sampling (seqs : list (list A)) size p os,
+  forall alg sw sentinels sampling (seqs : list (list A)) size p os,
   seqs <> [] -> goes_parallel sw (length seqs) size p = false ->
   Forall (fun l => Sorted (sorted_rel ltb) l) seqs -> size <= total seqs ->
-  exists ts cur, pmwm ltb (part08 ltb) (seq05 ltb alg) sw true false sampling seqs size p os =
+  (forall sents, sentinels = Some sents -> TLXV.C05.BaseProofs.sent_ok ltb seqs sents) ->
+  exists ts cur, pmwm ltb (part08 ltb) (seq05 ltb alg) sw true sentinels sampling seqs size p os =
                  Some {| p_threads := ts; p_cursors := cur; p_ret := size |} /\
                  contiguous ts 0 size /\ output ts = firstn size (smerge ltb seqs) /\ length ts = 1.
 Proof. exact @closed_fallback_stable. Qed.
